@@ -101,3 +101,16 @@ package poll
 //@ requires p != nil && p.sq != nil && !closed(p.sq)
 //@ ensures result == (sends(p.sq) == 1)
 //@ ensures sends(p.sq) <= 1
+
+// The streaming handler: a listener that was registered (Connect succeeded) reports its departure exactly once
+// on every way out - a failed write as well as a cancelled request - unless the registry itself closed its
+// channel (it was replaced or the server stops). A connection that leaves without Disconnect stays registered,
+// and messages put into its buffer are reported delivered although nobody reads them (C18, C08).
+//@ func (*PollHandler).ServeHTTP
+//@ props C18 C08
+//@ abstract-calls .*
+//@ requires h != nil && h.config != nil && r != nil && r.URL != nil
+//@ site call Connect assert conn == caller_conn
+//@ site call Disconnect assert conn == caller_conn && calls("Connect") == 1 && callres("Connect", 0, 0)
+//@ site return assert calls("Connect") == 1 && callres("Connect", 0, 0) && ok ==> calls("Disconnect") == 1
+//@ site return assert calls("Disconnect") <= 1
